@@ -92,6 +92,22 @@ def step_make(targets):
     return rc == 0, out
 
 
+def step_coqchk(pid):
+    """Thorough tier: re-check the compiled property file and everything it depends on with the independent checker."""
+    q = '-Q gen Gecs -Q model Gecs -Q spec Gecs -Q proofs Gecs -Q props Gecs'
+    rc, out = sh('timeout 2400 coqchk -silent -o %s Gecs.%s' % (q, pid), cwd=COQ, timeout=2500)
+    if rc != 0:
+        return False, 'coqchk failed: ' + out[-800:]
+    m = re.search(r'\* Axioms:\s*(.*?)\n\s*\n', out, flags=re.S)
+    ax = (m.group(1).strip() if m else '?')
+    bad = [k for k in ('type-in-type', 'unsafe (co)fixpoints', 'positivity is assumed') if not re.search(re.escape(k) + r':\s*<none>', out)]
+    if ax != '<none>' and not all(a.strip() in AXIOM_ALLOW for a in ax.split('\n') if a.strip()):
+        return False, 'coqchk reports axioms: ' + ax
+    if bad:
+        return False, 'coqchk reports: ' + ', '.join(bad)
+    return True, 'coqchk: axioms ' + ax
+
+
 def theorem_names(vfile):
     src = open(vfile).read()
     return re.findall(r'^\s*(?:Theorem|Corollary)\s+([A-Za-z0-9_\']+)', src, flags=re.M)
@@ -452,6 +468,11 @@ def check(pid, tier, seed):
     problems, axioms, thms, obligations, conefiles = step_audit(pid, propfiles) if not any(k == 'proof' for k, _ in broken) else ([], [], [], 0, [])
     for pb in problems:
         broken.append(('audit', pb))
+    coqchk_note = None
+    if tier == 'thorough' and not any(k == 'proof' for k, _ in broken):
+        okc, coqchk_note = step_coqchk(pid)
+        if not okc:
+            broken.append(('audit', coqchk_note))
 
     prepare_harness_sources()
     scale = 8 if tier == 'thorough' else 1
@@ -704,7 +725,7 @@ def check(pid, tier, seed):
             model_disagreements=len(diffs), spec_failures=len(own),
             streams=[dict(config=cn, cases=s['cases'], ops=s['ops'], histories_meeting_run_theorem_hypotheses=s.get('wf_histories', 0), histories_meeting_history_theorem_hypotheses=s.get('hist_histories', 0), ops_by_kind=s['by_kind'], outcomes=s['outcomes']) for cn, s in stats_all],
             samples=([sample] if sample else []) + ([macro_info['sample']] if macro_info else []),
-            macro=macro_info, c18=c18_info, fill=fill_info, programs=(c18_info['programs'] if c18_info else 0),
+            macro=macro_info, c18=c18_info, fill=fill_info, coqchk=coqchk_note, programs=(c18_info['programs'] if c18_info else 0),
             exhaustive=any(r['case'].get('exhaustive') for r in all_results) if pid == 'C11' else False,
             explanation='machine-checked theorems over the model; model tied to the source by translation (coq/gen regenerated this run) and by differential execution of the same operations on the implementation',
         ),
